@@ -137,7 +137,9 @@ def nlh(cmd, lines, profile="release", timeout=600, tag="cases"):
             got = p.stdout.split("\n")
             if got and got[-1] == "":
                 got.pop()
-            status = "CRASH rc=%d" % p.returncode
+            # the allocator giving up (a program that spells out unbounded growth under the address-space limit) is
+            # resource exhaustion, not a crash of the interpreter's logic
+            status = "OOM" if "memory allocation of" in (p.stderr or "")[-2000:] else "CRASH rc=%d" % p.returncode
         except subprocess.TimeoutExpired as e:
             got = (e.stdout or b"").decode("utf-8", "replace").split("\n") if isinstance(e.stdout, bytes) else (e.stdout or "").split("\n")
             if got and got[-1] == "":
